@@ -1,0 +1,10 @@
+//go:build verif
+
+package state
+
+// VerifCleanSessions synchronously runs what the session cleaner worker does
+// on every tick (dropping sessions that have been idle for too long).
+// Verification hook: only compiled with the "verif" build tag.
+func (state *State) VerifCleanSessions() {
+	state.cleanSessions()
+}
